@@ -265,15 +265,22 @@ def step (s : St) (kind : String) (args impl : List String) : Option (St × Step
     let persist ← (kv? rest "persist").bind fun p =>
       if p = "-" then some none else (bool? p).map some
     let tasks ← (kv? rest "tasks").bind fun t => (list? t).mapM bool?
-    let findFails := (kv? rest "finderr") = some "1"
+    let findFails : Bool := (kv? rest "finderr") == some "1"
     let inp : Input := { expired, owns, persist, tasks, findFails }
     let out := maybeDelete inp
     -- a second, fresh and owned blob is never a candidate
-    let obs := [outTok out.result, s!"executed={out.executed}", s!"present={boolTok (!out.deleted)}", "other=1"]
+    let flagTok := match out.persistAfter with | none => "-" | some true => "1" | some false => "0"
+    let delTok := match deleteAfter out with | .ok => "ok" | .persisted => "persisted" | .notExist => "notexist"
+    -- `flag` / `del`: the blob's persist sidecar and the answer of a DeleteCacheFile attempt after the request
+    let obs := [outTok out.result, s!"executed={out.executed}", s!"present={boolTok (!out.deleted)}", "other=1",
+      s!"flag={flagTok}", s!"del={delTok}"]
     -- predicate on the implementation's answer
     let pf : List String :=
       match impl with
-      | [_, ex, pr, oth] =>
+      | [_, ex, pr, oth, fl, dl] =>
+        let failed := findFails ∨ tasks.any (· == false)
+        if (expired || !owns) ∧ persist = some true ∧ failed ∧ (fl ≠ "flag=1" ∨ dl = "del=ok" ∨ dl = "del=notexist") then
+          [s!"side=impl key=protection-lost-after-failed-writeback the write-back of the persisted blob failed (tasks {boolsTok tasks}, find error {findFails}) but afterwards {fl}, {pr} and a delete request answers {dl}"] else
         if oth = "other=0" then [s!"side=impl key=deleted-not-candidate a fresh blob owned by this origin was deleted by the forced cleanup"] else
         if findFails ∧ pr = "present=0" ∧ persist = some true then [s!"side=impl key=deleted-before-writeback the persisted blob was deleted although the write-back tasks could not be looked up"] else
         let gone := pr = "present=0"
